@@ -391,6 +391,59 @@ def reuse_cells(ctx):
                 ctx.nt(['reuse', via, form], sample=False)
 
 
+def factory_render_cells(ctx):
+    """a render function is what the route ends up with - given as a callable, or made from a render *argument* by the
+    application's render factory (its own application's, or the embedding one's): one that takes `next` is rejected at
+    construction either way; the same without `next` is accepted and serves (control)"""
+    from clastic import Application, Route, Response, SubApplication, Middleware
+    from vlib.wsgi import call
+
+    def produce():
+        return {'answer': 42}
+
+    class RenderMW(Middleware):
+        def render(self, next, context):
+            return next()
+    sigs = {'pos': 'next, context', 'pos-default': 'context, next=None', 'kwonly': 'context, *, next', 'control': 'context'}
+    for form, sig in sorted(sigs.items()):
+        def factory(arg, sig=sig):
+            ns = {'Response': Response}
+            exec('def render(%s):\n    return Response("%%s|%%r" %% (%r, context))\n' % (sig, arg), ns)
+            return ns['render']
+        builders = {
+            'own-factory': lambda: Application([Route('/x', produce, 'tmpl')], render_factory=factory),
+            'own-factory-added': lambda: Application(render_factory=factory).add(Route('/x', produce, 'tmpl')) or None,
+            'own-factory-render-mw': lambda: Application([Route('/x', produce, 'tmpl')], render_factory=factory, middlewares=[RenderMW()]),
+            'embedding-factory': lambda: Application([SubApplication('/s', Application([Route('/x', produce, 'tmpl')]))], render_factory=factory),
+            'embedding-factory-rebind': lambda: Application([SubApplication('/s', Application([Route('/x', produce, 'tmpl')], render_factory=lambda a: (lambda context: Response('inner'))),
+                                                                          rebind_render=True)], render_factory=factory),
+            'callable': lambda: Application([Route('/x', produce, factory('given'))]),
+        }
+        for via, make in sorted(builders.items()):
+            case = {'base': 'factory-render', 'fault': {'f': 'takes-next', 'who': 'factory-render', 'via': via, 'form': form}}
+            ctx.case(case)
+            try:
+                app = make()
+                exc = None
+            except Exception as e:
+                app, exc = None, e
+            if form == 'control':
+                if exc is not None:
+                    ctx.mismatch('control-rejected', 'a factory-made render without `next` (%s) was rejected: %r' % (via, exc), case)
+                elif app is not None:
+                    r = call(app, '/s/x' if via.startswith('embedding') else '/x')
+                    ctx.requests += 1
+                    if r.status != 200 or b'42' not in r.body:
+                        ctx.mismatch('control-rejected', 'a factory-made render without `next` (%s) answered %s %r' % (via, r.status, r.body[:60]), case)
+                continue
+            ctx.event('fault-takes-next-factory-render')
+            if exc is None:
+                ctx.mismatch('accepted:takes-next-factory-render', 'a render function taking `next` (%s), %s, was not rejected at construction'
+                             % (sig, 'given as a callable' if via == 'callable' else 'made by a render factory: ' + via), case)
+            else:
+                ctx.nt(['factory-render', via, form], sample=False)
+
+
 def run_matrix(spec, ctx):
     matrix = fault_matrix()
     ctx.exhaustive = True
@@ -403,6 +456,10 @@ def run_matrix(spec, ctx):
             reuse_cells(ctx)
         except Exception as e:
             ctx.classify_exc(e, {'base': 'reuse', 'fault': None}, 'matrix')
+        try:
+            factory_render_cells(ctx)
+        except Exception as e:
+            ctx.classify_exc(e, {'base': 'factory-render', 'fault': None}, 'matrix')
     ctx.note('fault matrix has %d cells x 2 (provider with / without its phase function) per base shape' % len(matrix))
     for bi in spec['bases']:
         base = BASES[bi]
@@ -468,6 +525,9 @@ def replay(case, kind, ctx):
         return
     if isinstance(case, dict) and case.get('base') == 'reuse':
         reuse_cells(ctx)
+        return
+    if isinstance(case, dict) and case.get('base') == 'factory-render':
+        factory_render_cells(ctx)
         return
     if kind == 'matrix' or isinstance(case, dict):
         base = BASES[case['base']]
